@@ -3,7 +3,7 @@
    hypotheses are met by concrete non-trivial programs. *)
 From Coq Require Import ZArith NArith List Bool Arith.
 From GV Require Import Base.Result Base.Host Gen.Instr Model.Num Model.Value Model.Machine
-  Model.CompileExpr Spec.Ast Spec.Eval Proofs.C01.Fragment Proofs.C01.Stages Proofs.C01.Bounded.
+  Model.CompileExpr Spec.Ast Spec.Printer Spec.Eval Proofs.C01.Fragment Proofs.C01.Stages Proofs.C01.Main Proofs.C01.Bounded.
 Import ListNotations.
 
 (* a host that declines everything *)
@@ -62,7 +62,7 @@ Definition demo : expr :=
     (EBin BPair (EBin BAccess EValue (ELit (LInt 0)))
                 (EGroup (EBin BPair (ELit (LSym [107%N])) (ESide EValue (EIdent [97%N]))))).
 
-Example demo_in_fragment : frag demo = true /\ shape_ok demo = true /\ seq_ok true demo = true /\
+Example demo_in_fragment : frag3 demo = true /\ shape_ok demo = true /\ seq_ok true demo = true /\
   known_K1 demo = false /\ known_K2 demo = false.
 Proof. vm_compute. repeat split; reflexivity. Qed.
 
@@ -70,3 +70,20 @@ Example demo_evaluates :
   exists v h t, eval_prog sh nat host9 30 demo VUnit 0 = ODone v (h, t) /\ length t = 2 /\ h = 2 /\
     v = VPair (VNum (Int 1)) (VPair (VSym (sh [107%N])) (VList [VNum (Int 1); VNum (Int 2)])).
 Proof. eexists; eexists; eexists. vm_compute. repeat split; reflexivity. Qed.
+
+(* stage 4: { $ < 3 ?> ^~ $ + 1 |> $ = a } <~ 0  -- a loop through `^~`, an identifier inside the body;
+   the nested expression is labelled with the jump-table index of its body *)
+Definition demo4 : expr :=
+  EBin BApply
+    (ENested 1 (EElse (ECond false (EBin BLt EValue (ELit (LInt 3))) (EReapply (EBin BAdd EValue (ELit (LInt 1)))))
+                      (EBin BPair EValue (EIdent [97%N]))))
+    (ELit (LInt 0)).
+
+Example demo4_in_fragment :
+  Spec.Printer.printable demo4 = true /\ known_K1 demo4 = false /\ known_K2 demo4 = false /\
+  Proofs.C01.Main.labels_ok demo4 = true /\ frag3 demo4 = false.
+Proof. vm_compute. repeat split; reflexivity. Qed.
+
+Example demo4_evaluates :
+  exists h t, eval_prog sh nat host9 40 demo4 VUnit 0 = ODone (VPair (VNum (Int 3)) (VNum (Int 9))) (h, t) /\ length t = 1.
+Proof. eexists; eexists. vm_compute. split; reflexivity. Qed.
